@@ -482,15 +482,16 @@ def tsan_scheduled(ctx, f9_active, sets, base):
 def clips_threads(ctx, broken=None, audit=True):
     """Threads half of C06 ("... or by OpenMP threads; the clip counter equals the sum of the per-channel clip counts").
 
-    proof      Properties/C06Threads.lean (atomic RMW: exact total under every interleaving, any number of threads / regions;
-               pinned non-atomic `p->clips +=`: lost-update witness + "never over-counts"); when `audit` the module is built
+    proof      Properties/C06Threads.lean (the code as it is since the fix of F8, /repo a185517: atomic RMW, exact total under
+               every interleaving, any number of threads / regions; historical: the former non-atomic `p->clips +=` with its
+               lost-update witness + "never over-counts"); when `audit` the module is built
                and its axioms audited here and failures are appended to `broken` (a list, as returned by common.proof_stage).
     tie        the atomic model (`CLIPS` line of soxr_conc) is run on the per-channel counts measured on the real code (mono
                runs) and must equal the real sequential counter (integers).
     falsifier  real OpenMP teams (2..8 threads), every channel saturating, tiny blocks so that the channels reach
-               `p->clips +=` together: counter < sum is finding F8 (KNOWN-FINDING when listed active for C06),
-               counter > sum, or any loss with one thread, or any output sample differing from the sequential run is a
-               violation.
+               `p->clips +=` together: counter != sum (lost or extra counts), or any output sample differing from the
+               sequential run, is a violation (F8 is fixed; only while an entry F8 with status "known" is listed for C06
+               would a lost count print as KNOWN-FINDING).
     Returns a dict of what was measured (also merged into ctx.cov["clips_threads"])."""
     res = {"runs": 0, "lost_runs": 0, "max_loss_pct": 0.0, "exact_single_thread": 0, "model_vs_seq": 0}
     if broken is None:
@@ -592,7 +593,7 @@ def clips_threads(ctx, broken=None, audit=True):
                 ctx.violation("atomic clip-counter model gives %s, the real sequential run %d" % (l, seq), replay)
     ctx.cov["clips_threads"] = res
     ctx.assume("C06 threads: the OpenMP runtime runs the iterations of `omp parallel for` on concurrently executing threads; each "
-               "`p->clips += n` is a load, an add and a store of its own (model Conc/Clips.lean); the atomic model describes the code "
-               "only once the update is made atomic (candidate fix) — on the pinned tree the exactness theorem is about the repaired "
-               "update and the negation (lost update) about the code as written")
+               "`p->clips += clips` under `#pragma omp atomic` is one indivisible read-modify-write (atomic model of Conc/Clips.lean = the "
+               "code as it is since /repo a185517); the non-atomic model and its lost-update witness describe the code before that fix; "
+               "the dither seed p->seed of the same regions (F34) is outside this clause: runs use SOXR_NO_DITHER")
     return res
